@@ -2,6 +2,7 @@
 child, so each outcome is what a fresh interpreter would give.  Jobs on stdin, one per line:
   P <hex script>            -> canonical parse outcome + printed text
   F <json list of ops>      -> outcome of a FiltersSet job (see factory_impl.run_job)
+  L <hex script>            -> parse, then FiltersSet.from_parser_result at once (factory_impl.load_summary)
 """
 import json
 import os
@@ -19,6 +20,14 @@ def handle(line):
         b, _, _ = sieve_impl.run_parser(text, "print")
         err = p.error if (p is not None and a.startswith("reject")) else ""
         return json.dumps([a, b, err])
+    if kind == "L":
+        import factory_impl
+        from sievelib.parser import Parser
+        text = bytes.fromhex(payload[1:])
+        p = Parser()
+        if not p.parse(text):
+            return json.dumps(["rejected"])
+        return json.dumps(factory_impl.load_summary(p))
     if kind == "F":
         import factory_impl
         return json.dumps(factory_impl.run_job(json.loads(payload)))
